@@ -175,25 +175,142 @@ Proof.
   - intros mp Hmp. apply in_list_dir in Hmp. destruct Hmp as [A B]. split; [exact B|]. apply In_keys_lookup. exact A.
 Qed.
 
+(* ------------------------------------------------------------------ phases, fault-free *)
+Lemma list_at_le' : forall a b k ms, store_le a b -> list_at a k ms -> list_at b k ms.
+Proof. intros a b k ms L [ob [H1 H2]]. exists ob. split; [apply L; exact H1|exact H2]. Qed.
+Lemma manifest_at_le' : forall a b k es, store_le a b -> manifest_at a k es -> manifest_at b k es.
+Proof. intros a b k es L [ob [H1 H2]]. exists ob. split; [apply L; exact H1|exact H2]. Qed.
+
+Lemma referenced_le : forall snaps st st1, store_le st1 st ->
+  (forall k, ref_manifest snaps st1 k -> ref_manifest snaps st k) /\ (forall k, ref_data snaps st1 k -> ref_data snaps st k).
+Proof.
+  intros snaps st st1 LE. split.
+  - intros k [l [ms [m [H1 [H2 [H3 [H4 [H5 E]]]]]]]]. exists l, ms, m. repeat split; auto. eapply list_at_le'; eauto.
+  - intros k [l [ms [m [es [e [H1 [H2 [H3 [H4 [H5 [H6 [H7 E]]]]]]]]]]]]. exists l, ms, m, es, e. repeat split; auto;
+      [eapply list_at_le'; eauto|eapply manifest_at_le'; eauto].
+Qed.
+
+Lemma undamaged_transfer : forall now timeout snaps st st1, wf_store snaps st -> only_markers_removed now timeout st st1 ->
+  undamaged snaps st -> undamaged snaps st1.
+Proof.
+  intros now timeout snaps st st1 WF O [UL UM]. pose proof O as [LE _]. destruct (referenced_le snaps st st1 LE) as [RM _]. split.
+  - intros k R. destruct (UL k R) as [ms [ob [L B]]]. exists ms, ob. split; [|exact B]. eapply omr_keeps_meta; eauto.
+    destruct R as [l [H1 [H2 ->]]]. exact (wf_snaps _ _ WF l H1 H2).
+  - intros k R. destruct (UM k (RM k R)) as [es [ob [L B]]]. exists es, ob. split; [|exact B]. eapply omr_keeps_meta; eauto.
+    destruct (RM k R) as [l [ms [m [H1 [H2 [[obl [Ll Bl]] [H4 [H5 ->]]]]]]]]. exact (wf_lists _ _ WF _ _ _ _ Ll Bl H4 H5).
+Qed.
+
+Lemma reach_nf : forall tp snaps g, wf_store snaps (g_store g) -> undamaged snaps (g_store g) ->
+  exists rl rm rd g', reach tp no_faults snaps g = (ROk rl rm rd, g').
+Proof.
+  intros tp snaps g WF [UL UM]. unfold reach.
+  destruct (read_all_nf WList (norm_set tp snaps) g) as [mp [g1 RL]].
+  { intros k Hk. apply (lists_exact tp snaps (g_store g) WF) in Hk. destruct (UL k Hk) as [ms Hms]. exists ms. exact Hms. }
+  rewrite RL. assert (S1: g_store g1 = g_store g) by (exact (read_all_store _ _ _ _ _ _ RL)).
+  destruct (read_all_nf WManifest (norm_set tp mp) g1) as [es [g2 RM]].
+  { intros k Hk. apply (manifests_exact tp snaps (g_store g) WF no_faults g g1 mp eq_refl RL) in Hk. destruct (UM k Hk) as [xs Hxs]. exists xs. rewrite S1. exact Hxs. }
+  rewrite RM. eauto.
+Qed.
+
+Lemma sweeps_nf_done : forall tp grace now rl rm rd prot g, r_out (sweeps tp grace now no_faults rl rm rd prot g) = Done.
+Proof.
+  intros. unfold sweeps.
+  pose proof (sweep_nf_no_abort tp grace now (rd ++ prot) g DATA_PREFIX [] (or_introl eq_refl)) as N1.
+  destruct (sweep tp grace now (rd ++ prot) no_faults g DATA_PREFIX []) as [[b1 d1] g4]. cbn [fst] in N1. subst b1.
+  pose proof (sweep_nf_no_abort tp grace now ((rm ++ rl) ++ prot) g4 MANIFESTS_PREFIX d1 (or_intror eq_refl)) as N2.
+  destruct (sweep tp grace now ((rm ++ rl) ++ prot) no_faults g4 MANIFESTS_PREFIX d1) as [[b2 d2] g5]. cbn [fst] in N2. subst b2.
+  reflexivity.
+Qed.
+
+Lemma sweeps_nf_live : forall tp grace now rl rm rd prot g k ob,
+  lookup k (g_store g) = Some ob ->
+  startswith (DATA_PREFIX ++ "/") k = true \/ startswith (MANIFESTS_PREFIX ++ "/") k = true ->
+  ~ In k rd -> ~ In k rm -> ~ In k rl -> ~ In k prot -> mtime ob < now - grace ->
+  In k (r_deleted (sweeps tp grace now no_faults rl rm rd prot g)).
+Proof.
+  intros tp grace now rl rm rd prot g k ob L Hpre ND NM NL NP Old.
+  assert (TR: table_relative k) by (destruct Hpre; [apply listed_data_relative|apply listed_manifests_relative]; assumption).
+  pose proof (sweeps_nf_done tp grace now rl rm rd prot g) as DONE. unfold sweeps in *.
+  destruct (sweep tp grace now (rd ++ prot) no_faults g DATA_PREFIX []) as [[b1 d1] g4] eqn:SW1.
+  destruct b1; [discriminate|].
+  destruct (sweep tp grace now ((rm ++ rl) ++ prot) no_faults g4 MANIFESTS_PREFIX d1) as [[b2 d2] g5] eqn:SW2.
+  destruct b2; [discriminate|]. cbn [r_deleted].
+  pose proof (sweep_spec _ _ _ _ _ _ _ _ _ _ _ SW1) as [A1 [_ [A3 _]]].
+  pose proof (sweep_spec _ _ _ _ _ _ _ _ _ _ _ SW2) as [_ [_ [_ B4]]].
+  destruct Hpre as [Hp|Hp].
+  - apply B4. eapply (sweep_nf_live _ _ _ _ _ _ _ _ _ SW1); eauto.
+    rewrite norm_table_relative by exact TR. apply str_mem_false. intro Hin. apply in_app_or in Hin. tauto.
+  - assert (L4: lookup k (g_store g4) = Some ob).
+    { destruct (lookup k (g_store g4)) as [ob4|] eqn:E.
+      - apply A1 in E. congruence.
+      - destruct (A3 k ob L E) as [_ [Hd| ->]]; [|discriminate]. exfalso.
+        apply startswith_spec in Hd. destruct Hd as [r ->]. discriminate. }
+    eapply (sweep_nf_live _ _ _ _ _ _ _ _ _ SW2); eauto.
+    rewrite norm_table_relative by exact TR. apply str_mem_false. intro Hin. apply in_app_or in Hin. destruct Hin as [Hin|Hin]; [|tauto].
+    apply in_app_or in Hin. tauto.
+Qed.
+
 (* ------------------------------------------------------------------ theorems *)
+Theorem gc_no_abort_from : forall mf tp grace now timeout snaps g0,
+  wf_store snaps (g_store g0) -> undamaged snaps (g_store g0) -> r_out (gc_run_from mf tp grace now timeout no_faults snaps g0) = Done.
+Proof.
+  intros mf tp grace now timeout snaps g0 WF U. unfold gc_run_from. destruct mf.
+  - destruct (load_protection_nf tp timeout now g0) as [prot [g1 LP]]. rewrite LP.
+    pose proof (load_protection_omr _ _ _ _ _ _ _ LP (wf_store_markers _ _ WF)) as O.
+    pose proof (load_protection_sub _ _ _ _ _ _ _ LP) as SUB.
+    assert (WF1: wf_store snaps (g_store g1)) by (destruct O; eapply wf_store_le; eauto; eapply sub_nodup; eauto; exact (wf_nodup _ _ WF)).
+    destruct (reach_nf tp snaps g1 WF1 (undamaged_transfer _ _ _ _ _ WF O U)) as [rl [rm [rd [g2 RE]]]]. rewrite RE. apply sweeps_nf_done.
+  - destruct (reach_nf tp snaps g0 WF U) as [rl [rm [rd [g1 RE]]]]. rewrite RE.
+    destruct (load_protection_nf tp timeout now g1) as [prot [g2 LP]]. rewrite LP. apply sweeps_nf_done.
+Qed.
+
 Theorem gc_no_abort : forall tp grace now timeout snaps st,
   wf_store snaps st -> undamaged snaps st -> r_out (gc_run tp grace now timeout no_faults snaps st) = Done.
+Proof. intros tp grace now timeout snaps st WF U. unfold gc_run. exact (gc_no_abort_from MARKERS_FIRST tp grace now timeout snaps (mkG 0 st []) WF U). Qed.
+
+Theorem gc_live_from : forall mf tp grace now timeout snaps g0,
+  wf_store snaps (g_store g0) -> r_out (gc_run_from mf tp grace now timeout no_faults snaps g0) = Done ->
+  forall k ob, lookup k (g_store g0) = Some ob ->
+    startswith (DATA_PREFIX ++ "/") k = true \/ startswith (MANIFESTS_PREFIX ++ "/") k = true ->
+    ~ referenced snaps (g_store g0) k -> ~ live_target now timeout (g_store g0) k -> mtime ob < now - grace ->
+    In k (r_deleted (gc_run_from mf tp grace now timeout no_faults snaps g0)).
 Proof.
-  intros tp grace now timeout snaps st WF [UL UM]. unfold gc_run, gc_run_from.
-  set (g0 := mkG 0 st []).
-  destruct (read_all_nf WList (norm_set tp snaps) g0) as [mp [g1 RL]].
-  { intros k Hk. apply (lists_exact tp snaps st WF) in Hk. destruct (UL k Hk) as [ms Hms]. exists ms. exact Hms. }
-  rewrite RL.
-  assert (S1: g_store g1 = st) by (rewrite (read_all_store _ _ _ _ _ _ RL); reflexivity).
-  destruct (read_all_nf WManifest (norm_set tp mp) g1) as [es [g2 RM]].
-  { intros k Hk. apply (manifests_exact tp snaps st WF no_faults g0 g1 mp eq_refl RL) in Hk. destruct (UM k Hk) as [xs Hxs]. exists xs. rewrite S1. exact Hxs. }
-  rewrite RM.
-  destruct (load_protection_nf tp timeout now g2) as [prot [g3 LP]]. rewrite LP.
-  pose proof (sweep_nf_no_abort tp grace now (map (normalize_path tp) es ++ prot) g3 DATA_PREFIX [] (or_introl eq_refl)) as N1.
-  destruct (sweep tp grace now (map (normalize_path tp) es ++ prot) no_faults g3 DATA_PREFIX []) as [[b1 d1] g4]. cbn [fst] in N1. subst b1.
-  pose proof (sweep_nf_no_abort tp grace now ((norm_set tp mp ++ norm_set tp snaps) ++ prot) g4 MANIFESTS_PREFIX d1 (or_intror eq_refl)) as N2.
-  destruct (sweep tp grace now ((norm_set tp mp ++ norm_set tp snaps) ++ prot) no_faults g4 MANIFESTS_PREFIX d1) as [[b2 d2] g5]. cbn [fst] in N2. subst b2.
-  reflexivity.
+  intros mf tp grace now timeout snaps g0 WF. set (st := g_store g0) in *.
+  assert (MW: markers_wf st) by (eapply wf_store_markers; eauto).
+  assert (KEEPS: forall g1 k ob, only_markers_removed now timeout st (g_store g1) -> lookup k st = Some ob ->
+            startswith (DATA_PREFIX ++ "/") k = true \/ startswith (MANIFESTS_PREFIX ++ "/") k = true -> lookup k (g_store g1) = Some ob).
+  { intros g1 k ob [LE RM] L Hpre. destruct (lookup k (g_store g1)) as [ob1|] eqn:E.
+    - apply LE in E. congruence.
+    - destruct (RM k ob L E) as [_ [M _]]. exfalso. destruct Hpre as [Hp|Hp].
+      + rewrite (marker_not_data k M) in Hp. discriminate.
+      + rewrite (marker_not_manifests k M) in Hp. discriminate. }
+  unfold gc_run_from. destruct mf.
+  - destruct (load_protection tp timeout now no_faults g0) as [[prot|] g1] eqn:LP; [|discriminate].
+    pose proof (load_protection_nf_live _ _ _ _ _ _ LP MW (wf_nodup _ _ WF)) as PL.
+    pose proof (load_protection_omr _ _ _ _ _ _ _ LP MW) as O. pose proof (load_protection_sub _ _ _ _ _ _ _ LP) as SUB.
+    assert (WF1: wf_store snaps (g_store g1)) by (destruct O; eapply wf_store_le; eauto; eapply sub_nodup; eauto; exact (wf_nodup _ _ WF)).
+    destruct (reach tp no_faults snaps g1) as [[ph rl rm|rl rm rd] g2] eqn:RE; [discriminate|].
+    pose proof (reach_store _ _ _ _ _ _ RE) as S2. pose proof (reach_ok _ _ _ _ _ _ _ _ WF1 RE) as RC.
+    destruct O as [LE RMV]. destruct (referenced_le snaps st (g_store g1) LE) as [TM TD].
+    intros _ k ob L Hpre NR NL Old. apply sweeps_nf_live with (ob := ob); [| exact Hpre | | | | | exact Old].
+    + rewrite S2. exact (KEEPS g1 k ob (conj LE RMV) L Hpre).
+    + intro Hin. apply NR. right. right. apply TD. exact (rx_data _ _ _ _ _ RC k Hin).
+    + intro Hin. apply NR. right. left. apply TM. exact (rx_manifests _ _ _ _ _ RC k Hin).
+    + intro Hin. apply NR. left. exact (rx_lists _ _ _ _ _ RC k Hin).
+    + intro Hin. apply NL. apply PL. exact Hin.
+  - destruct (reach tp no_faults snaps g0) as [[ph rl rm|rl rm rd] g1] eqn:RE; [discriminate|].
+    pose proof (reach_store _ _ _ _ _ _ RE) as S1. pose proof (reach_ok _ _ _ _ _ _ _ _ WF RE) as RC. fold st in RC.
+    destruct (load_protection tp timeout now no_faults g1) as [[prot|] g2] eqn:LP; [|discriminate].
+    assert (MW1: markers_wf (g_store g1)) by (rewrite S1; exact MW).
+    assert (ND1: NoDup (map fst (g_store g1))) by (rewrite S1; exact (wf_nodup _ _ WF)).
+    pose proof (load_protection_nf_live _ _ _ _ _ _ LP MW1 ND1) as PL. rewrite S1 in PL.
+    pose proof (load_protection_omr _ _ _ _ _ _ _ LP MW1) as O. rewrite S1 in O.
+    intros _ k ob L Hpre NR NL Old. apply sweeps_nf_live with (ob := ob); [| exact Hpre | | | | | exact Old].
+    + exact (KEEPS g2 k ob O L Hpre).
+    + intro Hin. apply NR. right. right. exact (rx_data _ _ _ _ _ RC k Hin).
+    + intro Hin. apply NR. right. left. exact (rx_manifests _ _ _ _ _ RC k Hin).
+    + intro Hin. apply NR. left. exact (rx_lists _ _ _ _ _ RC k Hin).
+    + intro Hin. apply NL. apply PL. exact Hin.
 Qed.
 
 Theorem gc_live : forall tp grace now timeout snaps st,
@@ -202,41 +319,4 @@ Theorem gc_live : forall tp grace now timeout snaps st,
     startswith (DATA_PREFIX ++ "/") k = true \/ startswith (MANIFESTS_PREFIX ++ "/") k = true ->
     ~ referenced snaps st k -> ~ live_target now timeout st k -> mtime ob < now - grace ->
     In k (r_deleted (gc_run tp grace now timeout no_faults snaps st)).
-Proof.
-  intros tp grace now timeout snaps st WF. unfold gc_run, gc_run_from. set (g0 := mkG 0 st []).
-  destruct (read_all WList no_faults g0 (norm_set tp snaps)) as [[mp|] g1] eqn:RL; [|discriminate].
-  destruct (read_all WManifest no_faults g1 (norm_set tp mp)) as [[es|] g2] eqn:RM; [|discriminate].
-  assert (S2: g_store g2 = st) by (eapply (g2_store tp snaps st no_faults g0 g1 mp eq_refl RL); eauto).
-  destruct (load_protection tp timeout now no_faults g2) as [[prot|] g3] eqn:LP; [|discriminate].
-  pose proof (load_protection_nf_live _ _ _ _ _ _ LP) as PL. rewrite S2 in PL.
-  specialize (PL (wf_store_markers _ _ WF) (wf_nodup _ _ WF)).
-  apply load_protection_spec in LP; [|rewrite S2; eapply wf_store_markers; eauto]. rewrite S2 in LP. destruct LP as [P1 [_ [P3 _]]].
-  destruct (sweep tp grace now (map (normalize_path tp) es ++ prot) no_faults g3 DATA_PREFIX []) as [[b1 d1] g4] eqn:SW1.
-  destruct b1; [discriminate|].
-  destruct (sweep tp grace now ((norm_set tp mp ++ norm_set tp snaps) ++ prot) no_faults g4 MANIFESTS_PREFIX d1) as [[b2 d2] g5] eqn:SW2.
-  destruct b2; [discriminate|]. intros _ k ob L Hpre NR NL Old. cbn [r_deleted].
-  assert (TR: table_relative k) by (destruct Hpre; [apply listed_data_relative|apply listed_manifests_relative]; assumption).
-  assert (L3: lookup k (g_store g3) = Some ob).
-  { destruct (lookup k (g_store g3)) as [ob3|] eqn:E.
-    - apply P1 in E. congruence.
-    - destruct (P3 k ob L E) as [_ [M _]]. exfalso. destruct Hpre as [Hp|Hp].
-      + rewrite (marker_not_data k M) in Hp. discriminate.
-      + rewrite (marker_not_manifests k M) in Hp. discriminate. }
-  assert (NP: ~ In k prot) by (intro Hin; apply NL; apply PL; exact Hin).
-  pose proof (sweep_spec _ _ _ _ _ _ _ _ _ _ _ SW1) as [A1 [_ [A3 _]]].
-  pose proof (sweep_spec _ _ _ _ _ _ _ _ _ _ _ SW2) as [_ [_ [_ B4]]].
-  destruct Hpre as [Hp|Hp].
-  - apply B4. eapply (sweep_nf_live _ _ _ _ _ _ _ _ _ SW1); eauto.
-    rewrite norm_table_relative by exact TR. apply str_mem_false. intro Hin. apply in_app_or in Hin. destruct Hin as [Hin|Hin]; [|auto].
-    apply NR. right. right. exact (data_exact tp snaps st WF no_faults g0 g1 mp eq_refl RL g2 es RM k Hin).
-  - assert (L4: lookup k (g_store g4) = Some ob).
-    { destruct (lookup k (g_store g4)) as [ob4|] eqn:E.
-      - apply A1 in E. congruence.
-      - destruct (A3 k ob L3 E) as [_ [Hd| ->]]; [|discriminate]. exfalso.
-        apply startswith_spec in Hd. destruct Hd as [r ->]. discriminate. }
-    eapply (sweep_nf_live _ _ _ _ _ _ _ _ _ SW2); eauto.
-    rewrite norm_table_relative by exact TR. apply str_mem_false. intro Hin. apply in_app_or in Hin. destruct Hin as [Hin|Hin]; [|auto].
-    apply in_app_or in Hin. destruct Hin as [Hin|Hin]; apply NR.
-    + right. left. exact (manifests_exact tp snaps st WF no_faults g0 g1 mp eq_refl RL k Hin).
-    + left. exact (lists_exact tp snaps st WF k Hin).
-Qed.
+Proof. intros tp grace now timeout snaps st WF. unfold gc_run. exact (gc_live_from MARKERS_FIRST tp grace now timeout snaps (mkG 0 st []) WF). Qed.
